@@ -52,7 +52,7 @@ func main() {
 				for off := int64(0); off < 840; off++ {
 					t := new(big.Int).Add(p, big.NewInt(off))
 					m8, m3, m5, m7 := mod(t, 8), mod(t, 3), mod(t, 5), mod(t, 7)
-					if m8 == 7 && m3 == 2 && (m5 == 1 || m5 == 4) && (m7 == 3 || m7 == 5 || m7 == 6) {
+					if m8 == 7 && m3 == 2 && m5 == 4 && (m7 == 3 || m7 == 5 || m7 == 6) { // p = 1 mod 5 would make q = (p-1)/2 a multiple of 5
 						p = t
 						break
 					}
